@@ -30,7 +30,7 @@ fn sweeps(tier: Tier, property: &str) -> Vec<(Alphabet, usize)> {
     use Alphabet::*;
     match (property, tier) {
         ("C01", Tier::Quick) => vec![(Full, 3), (Sources, 4), (Tracked, 5), (InternGc, 4), (Backdate, 6)],
-        ("C01", Tier::Thorough) => vec![(Full, 4), (Sources, 6), (Tracked, 7), (InternGc, 6), (Backdate, 9)],
+        ("C01", Tier::Thorough) => vec![(Full, 4), (Sources, 6), (Tracked, 6), (InternGc, 6), (Backdate, 9)],
         ("C02", Tier::Quick) => vec![(Full, 3), (Sources, 5), (Tracked, 4), (Backdate, 6)],
         ("C02", Tier::Thorough) => vec![(Full, 4), (Sources, 6), (Tracked, 6), (InternGc, 5), (Backdate, 10)],
         ("C03", Tier::Quick) => vec![(Full, 3), (InternGc, 5), (Tracked, 4)],
